@@ -228,7 +228,7 @@ func genOne(r *hx.Rng, tier string) string {
 	sort.Ints(corrupt)
 	dirs := map[[2]int]string{}
 	// recipe families
-	switch r.Intn(12) {
+	switch r.Intn(16) {
 	case 0: // crash from some phase on
 		for _, c := range corrupt {
 			p0 := hx.Pick(r, sendPhases)
@@ -255,6 +255,51 @@ func genOne(r *hx.Rng, tier string) string {
 		dirs[[2]int{a, hx.Pick(r, []int{7, 8, 10})}] = "s"
 		if len(corrupt) > 1 {
 			dirs[[2]int{corrupt[1], 10}] = randomVariant(r, n, t, 10)
+		}
+	case 8, 9: // conflicting messages: first good / second bad and first bad / second good, one victim
+		a := corrupt[0]
+		if r.Chance(1, 3) {
+			a = corrupt[len(corrupt)-1]
+		}
+		v := r.Range(1, n)
+		ph := hx.Pick(r, sendPhases)
+		var bad string
+		switch ph {
+		case 1:
+			bad = fmt.Sprintf("rm%d", v)
+		case 3:
+			bad = hx.Pick(r, []string{fmt.Sprintf("bad%d", v), fmt.Sprintf("bad%d", v), fmt.Sprintf("garb%d", v), fmt.Sprintf("rs%d", v), "cm", "cp"})
+		case 4, 8:
+			bad = hx.Pick(r, []string{fmt.Sprintf("acc%d", v), fmt.Sprintf("accw%d", v)})
+		case 7:
+			bad = hx.Pick(r, []string{"pt" + dots(subset(r, n, t)), "pt" + dots(subset(r, n, t)), "pm", "pp"})
+		default:
+			bad = hx.Pick(r, []string{fmt.Sprintf("rev%d", v), fmt.Sprintf("revw%d", v)})
+		}
+		if r.Bool() {
+			dirs[[2]int{a, ph}] = "h|" + bad
+		} else {
+			dirs[[2]int{a, ph}] = bad + "|h"
+		}
+		if ph == 10 || ph == 8 {
+			// somebody must need reconstruction / be accusable for the message to matter
+			for _, b := range corrupt {
+				if b != a {
+					dirs[[2]int{b, 7}] = hx.Pick(r, []string{"s", "pt" + dots(subset(r, n, t))})
+				}
+			}
+		}
+	case 10: // the highest-index member misbehaves (index range checks)
+		a := n
+		corrupt[len(corrupt)-1] = n
+		ph := hx.Pick(r, []int{3, 7, 7, 8})
+		switch ph {
+		case 3:
+			dirs[[2]int{a, 3}] = fmt.Sprintf("bad%d", r.Range(1, n-1))
+		case 7:
+			dirs[[2]int{a, 7}] = "pt" + dots(subset(r, n-1, t))
+		default:
+			dirs[[2]int{a, 8}] = fmt.Sprintf("acc%d", r.Range(1, n-1))
 		}
 	case 7: // corrupt-to-corrupt misbehaviour: only a corrupt member can (truthfully or not) accuse
 		if len(corrupt) > 1 {
